@@ -561,7 +561,9 @@ func (s *State) applyTransition(name OpName) {
 // (only ever non-nil for pairBMC frames where a payload was attached).  If
 // the entry is not at the top, it is still removed, tolerating cross-nested
 // operator pairs (e.g. q BDC Q EMC).  Intervening entries of other types
-// are left in place.
+// are left in place.  This tolerance is for reading only: when Version is
+// set (by the Builder), the entry must be at the top, so that the
+// operator pairs written are properly nested.
 //
 // TODO(voss): investigate what PDF viewers actually do with cross-nested
 // operator pairs, and whether the writer needs to ensure proper nesting
@@ -569,6 +571,9 @@ func (s *State) applyTransition(name OpName) {
 func (s *State) popNesting(expected pairType, opName string) (*graphics.MarkedContent, error) {
 	for i := len(s.nesting) - 1; i >= 0; i-- {
 		if s.nesting[i].Kind == expected {
+			if s.Version > 0 && i != len(s.nesting)-1 {
+				return nil, errors.New(opName + ": improperly nested with " + s.nesting[len(s.nesting)-1].Kind.String())
+			}
 			mc := s.nesting[i].MC
 			s.nesting = append(s.nesting[:i], s.nesting[i+1:]...)
 			return mc, nil
